@@ -47,6 +47,12 @@ RULES = [
      NZ + ["group=parse", "group=transc", "group=wrap"],
      NZ_WHY + "; the decimal parser divides by the constant 2*5^54; transcendental divisors as for div_overflow; "
      "Wrapping roots carry the divisor guard or go through FromStr"),
+    # ---- From / LossyFrom roots (convert.rs) ------------------------------------------------
+    (r"^(ROOT|substrate_fixed::convert::<impl substrate_fixed::traits::LossyFrom<.*> for .*>::lossy_from) \| assert_fmt \| via from_fixed\+(to_num|to_fixed\+from_num)$", ["group=from"],
+     "`debug_assert!(!overflow)` of to_num / from_num reached from an infallible From / LossyFrom impl: such impls exist "
+     "only where the destination has at least the source's integer bits (the impl's where-clause; Engine T probes that "
+     "no impl exists outside that arithmetic specification), so the conversion's overflow flag is false for every "
+     "source value; at these pairs LLVM does not fold the 128-bit leading-bit count into a constant"),
     # ---- macros_frac.rs -------------------------------------------------------------
     (r"^substrate_fixed::FixedS<Frac>::(checked|overflowing)_rem_euclid_int \| overflow:sub$", "any",
      "`rhs_abs - rem_int_abs - (frac > 0)`: the remainder is negative with |rem| < |rhs| and rhs is an integer, "
@@ -70,7 +76,7 @@ RULES = [
      "sums/differences of bit counts: dst_frac_bits + dst_int_bits <= 128, src_bits - dst_bits, "
      "need_to_shr + leading, all within +-1400"),
     # ---- transcendental.rs (types with >= 9 integer bits and >= 23 fractional bits) -----
-    (r"^substrate_fixed::transcendental::cordic_rotation \| overflow:(add|sub) \| via (add|sub)_assign$",
+    (r"^substrate_fixed::transcendental::cordic_rotation \| overflow:(add|sub) \| via (add|sub)(_assign)?$",
      ["guard=mag"], "|x|,|y| <= K * prod sqrt(1+2^-2i) < 1.65 throughout the rotation and |z| <= |angle| + sum atan(2^-i) < 5; "
      "at least 9 integer bits"),
     (r"^substrate_fixed::transcendental::cos \| overflow:add \| via add$", ["guard=mag"],
@@ -79,7 +85,7 @@ RULES = [
      "division by LOG2_E = 1.4427 > 1 shrinks the magnitude"),
     (r"^substrate_fixed::transcendental::log2 \| overflow:neg \| via neg$", "any",
      "log2_inner >= 0 (an integer count plus fraction bits), never MIN"),
-    (r"^substrate_fixed::transcendental::log2_inner \| assert \| overflow \| via mul\+mul_assign$", "any",
+    (r"^substrate_fixed::transcendental::log2_inner \| assert \| overflow \| via mul(\+mul_assign)?$", "any",
      "loop invariant 1 <= x < 2 before `x *= x`, so x^2 < 4 needs 3 integer bits"),
     (r"^substrate_fixed::transcendental::log2_inner \| assert_fmt \| via from_fixed\+to_fixed\+from_num$", "any",
      "`D::from_num(result)` with result <= int_nbits - 1 <= 127 < 2^(int_nbits-1) for >= 9 integer bits"),
@@ -91,7 +97,7 @@ RULES = [
      "`operand/2 + 1 <= max/2 + 1 < max`, and `l + operand/l < x/2 + sqrt(x) + 3 <= max` for >= 5 integer bits"),
     (r"^substrate_fixed::transcendental::tan \| assert \| overflow \| via div$", ["guard=mag"],
      "inside the property's domain |tan x| <= 64 the quotient is < 70 < 255 (assumes C16's 2^-16 accuracy of sin/cos)"),
-    (r"^substrate_fixed::transcendental::tan \| assert \| overflow \| via mul\+mul_assign$", ["guard=mag"],
+    (r"^substrate_fixed::transcendental::tan \| assert \| overflow \| via mul(\+mul_assign)?$", ["guard=mag"],
      "`angle *= 2` with |angle| <= 100"),
     (r"^substrate_fixed::transcendental::tan \| overflow:add \| via add$", ["guard=mag"],
      "`1 + cos` with |cos| <= 1 + 2^-16"),
@@ -165,7 +171,7 @@ def main():
     untriaged = []
     used = set()
     for key, v in sorted(sweep["keys"].items()):
-        if key.startswith("ROOT"):
+        if key.startswith("ROOT") and not any(re.search(rx, key) for rx, _a, _w in RULES if rx.startswith("^(ROOT")):
             continue
         hit = None
         for i, (rx, applies, why) in enumerate(RULES):
